@@ -33,6 +33,8 @@ pub struct Inventory {
     pub struct_fields: BTreeMap<String, Vec<(String, String)>>,
     pub enums: BTreeMap<String, usize>,
     pub fns: BTreeMap<String, usize>,
+    /// Normalised return type of every top-level function.
+    pub fn_rets: BTreeMap<String, Option<String>>,
     /// Inherent methods per type.
     pub methods: BTreeMap<String, Vec<Method>>,
     /// const name -> token text of the whole item
@@ -115,6 +117,13 @@ pub fn inventory(text: &str) -> Result<Inventory, String> {
             syn::Item::Fn(f) => {
                 let n = f.sig.ident.to_string();
                 *inv.fns.entry(n.clone()).or_insert(0) += 1;
+                inv.fn_rets.insert(
+                    n.clone(),
+                    match &f.sig.output {
+                        syn::ReturnType::Type(_, t) => Some(normalise_type(t)),
+                        syn::ReturnType::Default => None,
+                    },
+                );
                 inv.order.push(Top::Fn(n));
             }
             syn::Item::Const(c) => {
